@@ -49,6 +49,8 @@ JudgeColex(e) ==
     IF e.res # "ok" THEN e.res
     ELSE IF \E i \in 1..Len(e.sets) : e.ranks[i] # i - 1 THEN "Rank disagrees with the order of CombinationsColex"
     ELSE IF \E i \in 1..Len(e.sets) : e.unr[i] # e.sets[i] THEN "Unrank disagrees with the order of CombinationsColex"
+    ELSE IF \E i \in 1..Len(e.sets) : \E j \in 1..Len(e.sets[i]) : e.sets[i][j] < 0 \/ e.sets[i][j] >= e.n THEN "the reference order contains a set that is not a subset of {0..n-1}"
+    ELSE IF e.k >= 0 /\ e.n >= 0 /\ Len(e.sets) < 5000 /\ FromInt(Len(e.sets)) # Binom(FromInt(e.n), e.k) THEN "Rank/Unrank are compared over an order that does not have C(n,k) members"
     ELSE ""
 
 TInit == l = 1 /\ bad = <<>> /\ st = [segs |-> 0, calls |-> 0, refusals |-> 0, beyondTable |-> 0, unranks |-> 0, ranks |-> 0]
